@@ -177,6 +177,55 @@ CHECKS = {
         "fix-point; a state cap may stop expansion at the last level (reported).",
         "DESIGN.md 3/C15",
     ),
+    "C01": (
+        "exploration",
+        "exhaustive enumeration of a finite input/strategy lattice on the real code, including every completion order of controlled futures (schedule enumeration)",
+        "Grids of 1-5 arguments x 1-4 values with unsorted typed value pools, "
+        "all spellings, 0-2 constants, result kinds x split x flat are swept by "
+        "the real combo_runner under sequential, shuffled and executor "
+        "strategies. The executors are controlled objects handing out genuine "
+        "futures whose completion order is chosen by the explorer: every "
+        "permutation for <= 5 settings, FIFO / reversal / all orders within two "
+        "adjacent transpositions beyond. Call log (exactly once per combination "
+        "with exactly the constants) and leaf-by-leaf placement are checked; "
+        "sweeps are also repeated right after a sweep over ==-equal values of "
+        "other types (non-initial process state). Real thread / process / loky "
+        "pools run on a few grids as conformance.",
+        "Quick tier rotates secondary dimensions; real pools' completion order "
+        "is whatever the OS gives.",
+        "DESIGN.md 3/C01",
+    ),
+    "C02": (
+        "exploration",
+        "exhaustive enumeration of case subsets and orders on the real code",
+        "Every non-empty subset (all, or size <= 4 for the larger universes) of "
+        "the argument universes 2x2, 3x2, 2x2x2, 3x3, 2x2x2x2 is requested as a "
+        "case set, in all orders for <= 3 cases and three orders beyond, in dict "
+        "spelling with varying key order (combo_runner) and tuple spelling "
+        "(case_runner), with 0-2 grid arguments crossed in, eight result kinds, "
+        "shuffle, flat / nested and split. Call log, axis = sorted union, own "
+        "value in every requested slot and a correctly shaped all-missing "
+        "placeholder everywhere else are checked; overlapping case and grid "
+        "arguments must be rejected with an empty call log.",
+        "Case values are mutually sortable per argument.",
+        "DESIGN.md 3/C02",
+    ),
+    "C03": (
+        "exploration",
+        "exhaustive enumeration of a finite input x description x entry-point lattice on the real code",
+        "Grids and case sets x twelve output descriptions in every accepted "
+        "spelling of var_names / var_dims / var_coords (including constants that "
+        "name a dimension, resources, attrs, Dataset / DataArray / dict results) "
+        "x entry point (combo/case_runner_to_ds, *_to_df, Runner.run_*, label()- "
+        "made Runner and Harvester) x {sequential, shuffled, controlled executor "
+        "completing in reverse}. Every grid point is selected by label and "
+        "compared with the function's value; dims order, coordinates, "
+        "constants-as-coordinate-or-attribute, absence of resources, attrs, "
+        "last_ds identity and, for DataFrames, row-internal pairing of arguments "
+        "and outputs are checked.",
+        "Quick tier takes every third spelling / entry point.",
+        "DESIGN.md 3/C03",
+    ),
 }
 
 NOT_BUILT = "check not built yet in this session (design in DESIGN.md section 3)"
